@@ -648,6 +648,8 @@ func checkC15(p *Program, r *Report) {
 		r.Unresolved("C15.zero", "(*ExtendedKey).String")
 	}
 	r.Floor("C15.zero", 6)
+	memoCoherence(p, r, "C15.memo", "hdkeychain", "ExtendedKey", nil)
+	r.Floor("C15.memo", 1)
 }
 
 func dedup(in []string) []string {
